@@ -13,6 +13,9 @@ import (
 	"runtime/debug"
 	"sort"
 	"strings"
+	"syscall"
+	"time"
+	"unsafe"
 
 	vocab "github.com/go-ap/activitypub"
 
@@ -428,6 +431,68 @@ var gobNestEntries = func() []decodeEntry {
 	return out
 }()
 
+type twinChainCase struct{ Type, Term, Host string }
+
+// twinChainCases: one vocabulary name per struct kind (two for the large families), nested through every item-valued or
+// list-valued term the kind declares, the two chains sitting in one of four list-valued host terms.
+var twinChainCases = func() []twinChainCase {
+	hosts := []string{"tag", "to", "items", "orderedItems"}
+	var out []twinChainCase
+	n := 0
+	for _, k := range vmodel.Kinds {
+		if k.Fam == "link" {
+			continue
+		}
+		names := []string{k.SpecificType()}
+		if len(k.Types) > 3 {
+			names = append(names, k.Types[len(k.Types)-1])
+		}
+		for _, name := range names {
+			for _, f := range k.Fields() {
+				if !(vmodel.IsItemType(f.Type) || f.Type == vmodel.IcT) {
+					continue
+				}
+				out = append(out, twinChainCase{name, f.Term, hosts[n%len(hosts)]})
+				n++
+			}
+		}
+	}
+	return out
+}()
+
+func twinChainDoc(tc twinChainCase, depth int) string {
+	open := fmt.Sprintf(`{"id":"https://a.example/n","type":%q,%q:`, tc.Type, tc.Term)
+	chain := strings.Repeat(open, depth) + `"https://a.example/leaf"` + strings.Repeat("}", depth)
+	switch tc.Host {
+	case "items":
+		return `{"type":"Collection","items":[` + chain + "," + chain + `]}`
+	case "orderedItems":
+		return `{"type":"OrderedCollection","orderedItems":[` + chain + "," + chain + `]}`
+	}
+	return `{"type":"Note","` + tc.Host + `":[` + chain + "," + chain + `]}`
+}
+
+// threadCPU runs f on a locked OS thread and returns the processor time that thread spent in it.
+func threadCPU(f func()) time.Duration {
+	runtime.LockOSThread()
+	defer runtime.UnlockOSThread()
+	read := func() time.Duration {
+		var ts syscall.Timespec
+		_, _, _ = syscall.Syscall(syscall.SYS_CLOCK_GETTIME, 3 /* CLOCK_THREAD_CPUTIME_ID */, uintptr(unsafe.Pointer(&ts)), 0)
+		return time.Duration(ts.Sec)*time.Second + time.Duration(ts.Nsec)
+	}
+	t0 := read()
+	f()
+	return read() - t0
+}
+
+func maxDur(a, b time.Duration) time.Duration {
+	if a > b {
+		return a
+	}
+	return b
+}
+
 func decoderFamily(name string) string {
 	switch {
 	case strings.Contains(name, "JSON"):
@@ -500,6 +565,68 @@ func init() {
 					if step2 > 4*maxInt64(step1, 0)+20000 {
 						c.Fail("work|gob|nesting-super-linear", fmt.Sprintf("%s on gob %s nested 6/12/18 deep allocated %d/%d/%d heap objects: the work is out of proportion to the depth", entry.Name, shape, m[0], m[1], m[2]),
 							map[string]any{"entry": entry.Name, "shape": shape, "mallocs": m})
+					}
+				}},
+				{Name: "twin-chain-growth", N: len(twinChainCases), Exhaustive: true, Run: func(c *Ctx, idx int) {
+					// a list that holds the same chain of nested objects twice makes the decoder compare the two chains (lists keep
+					// one member per identity). The processor time of the decode - read from the thread's own CPU clock, which a loaded
+					// machine does not inflate - must grow in proportion to the depth of the chains. The law is relative: depth 16 may
+					// cost at most 48 times depth 4 (4 times would be proportional); a comparison that visits a level twice per level
+					// above it costs 4096 times as much. The gob form of the decoded value is put through the gob decoder under the same law.
+					tc := twinChainCases[idx]
+					c.Distinct("twin|"+tc.Type+"|"+tc.Term+"|"+tc.Host, true)
+					var tj, tg [3]time.Duration
+					for k, depth := range []int{4, 10, 16} {
+						in := []byte(twinChainDoc(tc, depth))
+						c.Pending("UnmarshalJSON(pkg) :: " + tc.Host + " holding twice a chain of " + tc.Type + " nested " + fmt.Sprint(depth) + " deep through " + tc.Term)
+						var v vocab.Item
+						var err error
+						tj[k] = -1
+						for rep := 0; rep < 3; rep++ {
+							var d time.Duration
+							if c.Guard("UnmarshalJSON(pkg)", func() { d = threadCPU(func() { v, err = vocab.UnmarshalJSON(in) }) }) {
+								return
+							}
+							if tj[k] < 0 || d < tj[k] {
+								tj[k] = d
+							}
+							c.Eval(1)
+							c.Count("twin-chain-decodes", 1)
+						}
+						if err != nil || v == nil {
+							c.Fail("work|json|twin-chain-refused", fmt.Sprintf("UnmarshalJSON refused a %d-byte document nested %d deep: %v", len(in), depth, err), map[string]any{"input": clipB(in[:minInt(len(in), 300)])})
+							return
+						}
+						if tj[k] > 48*maxDur(tj[0], 100*time.Microsecond) {
+							c.Fail("work|json|twin-chain-super-linear", fmt.Sprintf("UnmarshalJSON of %s holding twice a chain of %s nested through %s: %v at depth 4, %v at depth %d (%d bytes): the time is out of proportion to the input", tc.Host, tc.Type, tc.Term, tj[0], tj[k], depth, len(in)),
+								map[string]any{"type": tc.Type, "term": tc.Term, "host": tc.Host, "cpu_ns": tj, "input_len": len(in)})
+							return
+						}
+						var gb []byte
+						if c.Guard("GobEncode(pkg)", func() { gb, err = vocab.GobEncode(v) }) {
+							return
+						}
+						if err != nil || len(gb) == 0 {
+							continue
+						}
+						c.Pending("GobDecode(pkg) :: gob form of " + tc.Host + " holding twice a chain of " + tc.Type + " nested " + fmt.Sprint(depth) + " deep through " + tc.Term)
+						tg[k] = -1
+						for rep := 0; rep < 3; rep++ {
+							var d time.Duration
+							if c.Guard("GobDecode(pkg)", func() { d = threadCPU(func() { _, _ = vocab.GobDecode(gb) }) }) {
+								return
+							}
+							if tg[k] < 0 || d < tg[k] {
+								tg[k] = d
+							}
+							c.Eval(1)
+							c.Count("twin-chain-decodes", 1)
+						}
+						if tg[0] > 0 && tg[k] > 48*maxDur(tg[0], 200*time.Microsecond) {
+							c.Fail("work|gob|twin-chain-super-linear", fmt.Sprintf("GobDecode of the gob form of %s holding twice a chain of %s nested through %s: %v at depth 4, %v at depth %d (%d bytes): the time is out of proportion to the input", tc.Host, tc.Type, tc.Term, tg[0], tg[k], depth, len(gb)),
+								map[string]any{"type": tc.Type, "term": tc.Term, "host": tc.Host, "cpu_ns": tg, "input_len": len(gb)})
+							return
+						}
 					}
 				}},
 				{Name: "mutations", N: tierN(tier, 100000, 5000000), Run: func(c *Ctx, idx int) {
